@@ -348,7 +348,7 @@ func (c *Ctx) c18Batch(b BK) {
 						ok = true
 					case pw.KArith:
 						ok = v.Op == token.ADD
-					case pw.KConst:
+					case pw.KConst, pw.KZero:
 						ok = true // zero iterations: counter still 0
 					case pw.KParam:
 						ok = true // inlined Notify: the parameter bound to the counter
